@@ -123,14 +123,15 @@ def run_impl(case):
     vs = all_vars(case)
     extra = [nm for nm, _ in case["asserts"][:-1]] if case["asserts"] else []
     data = {v: case["data"][v] for v in vs}
-    on = impl.run_online_discrete(text, vs, data, case["n"], extra_decl=extra)
-    off = impl.eval_offline_discrete(text, vs, data, case["n"], extra_decl=extra)
+    struct = case.get("struct") or ()
+    on = impl.run_online_discrete(text, vs, data, case["n"], extra_decl=extra, struct=struct)
+    off = impl.eval_offline_discrete(text, vs, data, case["n"], extra_decl=extra, struct=struct)
     return text, on, off
 
 
 def check_case(ctx, case, m_on, m_rho, m_gen=None):
     text, on, off = run_impl(case)
-    rep = {"spec": text, "data": case["data"], "n": case["n"], "formula": F.to_proto(case["f"]),
+    rep = {"struct": list(case.get("struct") or ()), "spec": text, "data": case["data"], "n": case["n"], "formula": F.to_proto(case["f"]),
            "asserts": [[nm, F.to_proto(b)] for nm, b in case["asserts"]] if case["asserts"] else None,
            "monitor": "discrete online", "impl_online": on, "impl_offline": off, "model_online": m_on, "model_rho": m_rho}
     if on[0] != "ok":
@@ -184,6 +185,8 @@ def explore(ctx, rng, count):
     for _ in range(count):
         c = gen_case(rng)
         c["data"] = F.gen_trace(rng, all_vars(c) or ["a"], c["n"])
+        # some variables are objects of a user-defined type read through a field (`a.value`)
+        c["struct"] = sorted(v for v in (all_vars(c) or ["a"]) if rng.random() < 0.5) if rng.random() < 0.15 else []
         if not disc.known_region(ctx, c, REGIONS):
             cases.append(c)
         else:
@@ -220,7 +223,7 @@ def explore(ctx, rng, count):
 
 def case_of_replay(obj):
     c = {"stream": "replay", "f": F.from_proto(obj["formula"]), "n": obj["n"],
-         "data": {k: [float(x) for x in v] for k, v in obj["data"].items()}, "asserts": None}
+         "data": {k: [float(x) for x in v] for k, v in obj["data"].items()}, "asserts": None, "struct": obj.get("struct") or []}
     if obj.get("asserts"):
         c["asserts"] = [(nm, F.from_proto(b)) for nm, b in obj["asserts"]]
     return c
